@@ -405,9 +405,14 @@ def prov_copy_complete(repo, tier="quick"):
         if loops and loops[0].kind == "for" and len(loops) == 1:
             it = strip_wrappers(fl.canon(loops[0].ast.iter, loops[0].id))
             mm = method_call(it, "edges")
+            mi = method_call(it, "items")
             if it == ("attr", tmpl, "edges") or (mm and mm[0] == tmpl):
                 ok_range = True
                 e_elem = ("iter", (loops[0].ast.lineno, loops[0].ast.col_offset), fl.canon(loops[0].ast.iter, loops[0].id))
+            elif mi and not mi[2] and mi[0] == ("attr", tmpl, "edges"):
+                # for (a, b), attrs in template.edges.items()
+                ok_range = True
+                e_elem = fl.subscript(("iter", (loops[0].ast.lineno, loops[0].ast.col_offset), fl.canon(loops[0].ast.iter, loops[0].id)), ("const", 0))
         gs = [g for g in guards_of(fi, nid) if g[2] != (loops[0].id if loops else None)]
         # tolerated guard: correspondence[a] != correspondence[b] (never false for simple graphs)
         gs_bad = []
